@@ -211,6 +211,9 @@ CHECKS["C03"] = dict(
     jobs=[
         dict(harness="touch", prop="composite", cases=T(25000, 400000), procs=T(6, 12)),
         dict(harness="touch_asan", prop="composite", cases=T(8000, 120000), procs=T(2, 4)),
+        # trapezoid entry points: the C12 harness checks every pixel against the sample-count model (so nothing outside the
+        # shape changes), row padding, and runs on exactly sized buffers fenced by PROT_NONE pages
+        dict(harness="traps", prop="traps", cases=T(15000, 200000), procs=T(3, 4), tag="c03_traps", tolerate=["S15", "S17"]),
     ],
     floor=T(100000, 2000000), nt_floor=T(30000, 500000),
     assumptions=["clips are not put on alpha-map images (the statement does not enumerate them)",
